@@ -213,22 +213,24 @@ FitDiag ==
 
 -----------------------------------------------------------------------------
 (* kind "restart": the clauses on the logged centroids, in fixed point with intervals *)
-C4(ev) == [j \in 1..TK |-> [d \in 1..TF |-> (ev.cen[j][d] + 5) \div 10]]     \* coordinates in 10^-4, error <= 0.55
-A4(x, cj) == [d \in 1..TF |-> KAbs(x[d] * 10000 - cj[d])]
-Sq100(a) == LET h == a \div 100
-                l == a % 100
-            IN 100 * h * h + 2 * h * l + (l * l) \div 100                    \* a^2 / 100 rounded down
+\* the logged centroid coordinates (10^-5) are within 0.5 unit of the returned ones
+C4(ev) == ev.cen
+A4(x, cj) == [d \in 1..TF |-> KAbs(x[d] * S5 - cj[d])]
+Sq1e4(a) == LET h == a \div 1000
+                l == a % 1000
+            IN 100 * h * h + (h * l) \div 5 + (l * l) \div 10000              \* a^2 / 10^4, at most 2 too small
 \* distance and half-width of its interval; units: l2 -> 10^-6, l1 / linf -> 10^-5
+\* (l2: (a +- 0.5)^2 / 10^4 = a^2 / 10^4 +- (a / 10^4 + ..), plus the rounding of Sq1e4)
 FD(x, cj) ==
   LET a == A4(x, cj) IN
-  CASE Mt = "l2"   -> KSum([d \in 1..TF |-> Sq100(a[d])])
-    [] Mt = "l1"   -> 10 * KSum(a)
-    [] Mt = "linf" -> 10 * KMax(a)
+  CASE Mt = "l2"   -> KSum([d \in 1..TF |-> Sq1e4(a[d])])
+    [] Mt = "l1"   -> KSum(a)
+    [] Mt = "linf" -> KMax(a)
 FS(x, cj) ==
   LET a == A4(x, cj) IN
-  CASE Mt = "l2"   -> KSum([d \in 1..TF |-> a[d] \div 80 + 2])
-    [] Mt = "l1"   -> 10 * TF
-    [] Mt = "linf" -> 10
+  CASE Mt = "l2"   -> KSum([d \in 1..TF |-> a[d] \div 10000 + 3])
+    [] Mt = "l1"   -> TF
+    [] Mt = "linf" -> 1
 \* per observation: interval ends of its minimal distance and the centroids that may be nearest
 NTab(PP, c4) ==
   [i \in 1..Len(PP) |->
